@@ -37,7 +37,100 @@ MACH = {"md5": "md5", "sha": "sha1", "sha256": "sha256", "sha384": "sha384"}
 LENS = [1, 15, 16, 17, 100]
 
 
+# ---- online monitor on the key derivation entry point -------------------
+# every call the handshake makes to tlslite.mathtls.calc_key (master secret,
+# extended master secret, key expansion, Finished) is recomputed at once by
+# the reference PRF with the hash the *suite name* prescribes
+KDF_LOG = []
+ODD_PRIME = int(
+    "d62ff12c7f1edda253025572b9d58a32ad040fdecc7d8fae064294f7df2f87bb06d39795"
+    "fb016c023360028c19d7bebdc1f8b14db11a043ce0cbd333614f5437feca558426bfe777"
+    "a67684c934ae8570648c004040da4504591f8970bafa35cd7ed6a493b41986cf97bbee48"
+    "8473ac748e35912b773b71c541b4270c430167bc67", 16)   # 1032 bits, safe
+
+
+def _install_kdf_monitor():
+    import tlslite.mathtls as M
+    import tlslite.tlsconnection as TC
+    import tlslite.recordlayer as RL
+    import tlslite.keyexchange as KX
+    real = M.calc_key
+    if getattr(real, "_vt_monitor", False):
+        return
+
+    def calc_key(version, secret, cipher_suite, label, handshake_hashes=None,
+                 client_random=None, server_random=None, output_length=None):
+        out = real(version, secret, cipher_suite, label,
+                   handshake_hashes=handshake_hashes,
+                   client_random=client_random, server_random=server_random,
+                   output_length=output_length)
+        try:
+            ver = tuple(version)
+            su = suites.TABLE.get(cipher_suite)
+            want = None
+            lab = bytes(label)
+            if su is not None and (3, 0) <= ver <= (3, 3):
+                prf = su.prf
+                if lab == b"master secret":
+                    want = kdf.master_secret(ver, prf, bytes(secret),
+                                             client_random, server_random)
+                elif lab == b"key expansion":
+                    want = kdf.key_block(ver, prf, bytes(secret),
+                                         client_random, server_random,
+                                         output_length)
+                elif ver > (3, 0):
+                    if ver < (3, 3):
+                        seed = bytes(handshake_hashes.digest("md5")) + \
+                            bytes(handshake_hashes.digest("sha1"))
+                    else:
+                        seed = bytes(handshake_hashes.digest(prf))
+                    n = 48 if lab == b"extended master secret" else 12
+                    want = kdf._prf(ver, prf, bytes(secret), lab, seed, n)
+            KDF_LOG.append((ver, cipher_suite, lab, len(secret),
+                            None if want is None else
+                            bytes(want) == bytes(out)))
+        except Exception as e:   # noqa
+            KDF_LOG.append(("monitor_error", repr(e)))
+        return out
+    calc_key._vt_monitor = True
+    for mod in (M, TC, RL, KX):
+        if getattr(mod, "calc_key", None) is real:
+            mod.calc_key = calc_key
+
+
+def judge_kdf_log(ctx, key, W):
+    for ent in KDF_LOG:
+        if ent[0] == "monitor_error":
+            ctx.inconc("key derivation monitor failed: %s" % ent[1])
+            continue
+        ver, sid, lab, slen, ok = ent
+        if ok is None:
+            continue
+        ctx.ev()
+        ctx.count("kdf_calls_recomputed")
+        ctx.cell("kdfcall", "%s|%s|%s" % (pair.VNAME[ver], lab.decode(),
+                                          "odd" if slen % 2 else "even"))
+        if not ok:
+            ctx.violation(dict(key, clause="prf_output_not_per_suite",
+                               label=lab.decode(),
+                               secret="odd" if slen % 2 else "even"),
+                          dict(W, secret_len=slen),
+                          "calc_key(%s, %r) with a %d-byte secret differs "
+                          "from the PRF the suite name prescribes" % (
+                              pair.VNAME[ver], lab, slen))
+            return
+
+
 def make_cases(ctx):
+    # finite-field exchanges whose shared secret has an odd number of bytes
+    # (a 1032-bit group): the TLS 1.0/1.1 PRF splits the secret in halves
+    for ver in pair.VERSIONS:
+        if ver == (3, 4):
+            continue
+        for sid in (0x0033, 0x0039, 0x0034):
+            for rep in range(ctx.pick(2, 6)):
+                yield "oddpm-%04x-%d%d-%d" % (sid, ver[0], ver[1], rep), \
+                    dict(sid=sid, ver=ver, etm=True, init="c", oddpm=True)
     for sid in sorted(suites.TABLE):
         su = suites.TABLE[sid]
         for ver in pair.VERSIONS:
@@ -549,18 +642,28 @@ def run_case(ctx, cid, P):
             ctx.count("not_implemented")
             return
         try:
-            fl = suites.flavor_for(sid, ver,
-                                   cset_kw=dict(useEncryptThenMAC=etm),
-                                   sset_kw=dict(useEncryptThenMAC=etm),
+            skw = dict(useEncryptThenMAC=etm)
+            ckw = dict(useEncryptThenMAC=etm)
+            if P.get("oddpm"):
+                skw["dhParams"] = (2, ODD_PRIME)
+                # no RFC 7919 group on offer: the server's own parameters
+                ckw["dhGroups"] = []
+                if int(cid.rsplit("-", 1)[1]) % 2:
+                    ckw["useExtendedMasterSecret"] = False
+            fl = suites.flavor_for(sid, ver, cset_kw=ckw, sset_kw=skw,
                                    **(dict(ckey=P["pha"]) if P.get("pha")
                                       else {}))
         except Exception as e:   # noqa
             ctx.count("config_rejected")
             return
+    _install_kdf_monitor()
+    del KDF_LOG[:]
     p = Pair()
     tc, ts = p.handshake(fl)
     ctx.ev()
     ctx.count("attempted")
+    judge_kdf_log(ctx, {"suite": su.name, "ver": pair.VNAME[ver]},
+                  {"case": cid, "suite": su.name})
     both = tc.status == "done" and ts.status == "done"
     W = {"case": cid, "suite": su.name, "ver": pair.VNAME[ver],
          "outcome": [outcome(tc), outcome(ts)]}
@@ -865,6 +968,14 @@ def finalize(m, tier):
         out.append("fewer than 500 records independently decrypted")
     if c.get("pha_finished_recomputed", 0) < 8:
         out.append("fewer than 8 post-handshake Finished recomputed")
+    if c.get("kdf_calls_recomputed", 0) < 500:
+        out.append("fewer than 500 calc_key calls recomputed")
+    odd = [x for x in m["cells"].get("kdfcall", ()) if x.endswith("|odd")]
+    if not any(x.startswith(("TLS1.0|master", "TLS1.1|master",
+                             "TLS1.0|extended", "TLS1.1|extended"))
+               for x in odd):
+        out.append("no TLS 1.0/1.1 master secret from an odd-length "
+                   "premaster observed")
     if c.get("resver_attempts", 0) < 100:
         out.append("fewer than 100 sessions offered at a lower version")
     if c.get("names_cross_checked", 0) < 40:
